@@ -78,7 +78,8 @@ CHECKS = {
              "number, closes pipes inside ADD_PRE, fails/completes dials, loses peers, and advances the virtual clock by the reconnect "
              "time after which the dialer must have dialled again.  wire/Inproc.tla: the same on the real inproc transport between two sockets "
              "(events of both ends of every connection, pipes closed in ADD_PRE by either socket, redial after the dialer's pipe is gone, the "
-             "listener accepting again).",
+             "listener accepting again).  wire/Framing.tla behaviours (peers hanging up during or right after the handshake, garbage, oversize frames) "
+             "replayed against real tcp / ipc / socket:// listeners: a later well-behaved connection must still be accepted and served.",
         note="Trusted: as C10. Reconnect min = max = 10 ms (the randomised delay is below it; back-off growth is not modelled); one dialer and "
              "one listener per socket; harness transport only.",
         technique="TLA+ model checking (TLC) + simulation replay through a harness transport with virtual time",
